@@ -229,6 +229,17 @@ def _unpack_stack(scope, only_errors=True):
         if id(child) in [id(b) for b in branches]:
             break  # if child already covered by branches, stop the linear descent
 
+        if only_errors and CUR_ERROR not in child.maps[0]:
+            # the child completed. Errors below it were recovered from
+            # (a default, a Not, ...) and are not part of this failure,
+            # unless it is this very error, raised later by something
+            # lazy the child returned
+            below = child.maps[0]
+            while CUR_ERROR not in below and LAST_CHILD_SCOPE in below:
+                below = below[LAST_CHILD_SCOPE].maps[0]
+            if below.get(CUR_ERROR) is not scope.get(CUR_ERROR):
+                break
+
         scope = child.maps[0]
     else:  # if break executed above, cur scope was already added
         stack.append([scope, scope[Spec], scope[T], scope.get(CUR_ERROR), []])
